@@ -16,6 +16,7 @@ import (
 	"fmt"
 	"math"
 	"math/big"
+	"slices"
 	"sort"
 	"strconv"
 	"strings"
@@ -452,6 +453,18 @@ func idxCheck(c *core.Ctx, cs *idxCase) bool {
 func idxShrink(c *core.Ctx, cs *idxCase) *idxCase {
 	cur := *cs
 	fails := func(t *idxCase) bool { return c.Probe(func() { idxCheck(c, t) }) }
+	// long lists: whole blocks of pages first
+	for size := len(cur.Pages) / 2; size >= 2; size /= 2 {
+		for from := 0; from+size <= len(cur.Pages); {
+			t := cur
+			t.Pages = append(append([]idxPage(nil), cur.Pages[:from]...), cur.Pages[from+size:]...)
+			if fails(&t) {
+				cur = t
+			} else {
+				from += size
+			}
+		}
+	}
 	for changed := true; changed; {
 		changed = false
 		for i := range cur.Pages {
@@ -490,11 +503,21 @@ func idxShrink(c *core.Ctx, cs *idxCase) *idxCase {
 	return &cur
 }
 
+// idxShrunk: failing indexer cases shrunk so far (one replay per class is kept:
+// after a few of them the failing cases are reported as they are; shrinking a
+// list of hundreds of pages costs as many model calls per round).
+var idxShrunk int
+
 func idxRun(c *core.Ctx, cs *idxCase, bucket string) bool {
 	ok := true
 	if c.Probe(func() { idxCheck(c, cs) }) {
 		ok = false
-		idxCheck(c, idxShrink(c, cs))
+		if idxShrunk < 6 {
+			idxShrunk++
+			idxCheck(c, idxShrink(c, cs))
+		} else {
+			idxCheck(c, cs)
+		}
 	}
 	key, _ := json.Marshal(cs)
 	c.Case(bucket, string(key), len(cs.Pages) >= 2)
@@ -612,6 +635,67 @@ func resetSweep(c *core.Ctx) {
 						}
 						idxRun(c, cs, "sweep/indexer-after-reset/"+k.Name)
 					}
+				}
+			}
+		}
+	}
+}
+
+// lengthSweep: page lists whose length is around the multiples of the strides
+// of the vectorised order kernels (8 and 16 lanes advancing by 7 and 15: 56,
+// 112, 240, ...), for every kind: ascending lists that end with the greatest
+// value of the domain and descending lists that end with the smallest one, so
+// that a comparison with whatever follows the list in memory (zeroes in a new
+// indexer, the entries of a longer earlier list after Reset) cannot go
+// unnoticed.
+func lengthSweep(c *core.Ctx) {
+	for _, k := range kinds {
+		lo, hi := k.tok(k.Domain[0]), k.tok(k.Domain[len(k.Domain)-1])
+		lengths := []int{55, 56, 57, 111, 112, 113, 239, 240, 241}
+		if c.Quick() && !map[string]bool{"int32": true, "int64": true, "uint32": true, "uint64": true, "float": true, "double": true}[k.Name] {
+			// the kinds that share these six indexers or have no vector kernel: the multiples only
+			lengths = []int{56, 112, 240}
+		}
+		switch {
+		case k.Name == "int96" && c.Quick():
+			// the model's INT96 order (word by word on 96-bit patterns) costs 0.4 s for 240 pages; the
+			// implementation's is a Go loop without a vector kernel
+			lengths = []int{56}
+		case !c.Quick():
+			lengths = append(lengths, 63, 64, 65, 167, 168, 169, 223, 224, 225, 447, 448, 449, 479, 480, 481)
+		case k.Name == "int32" || k.Name == "float":
+			// the quick tier goes to the next multiple for one kernel of each stride only (the model's
+			// lists are appended to page by page: its cost grows with the square of the length)
+			lengths = append(lengths, 479, 480, 481)
+		case k.Name == "int64" || k.Name == "double":
+			lengths = append(lengths, 447, 448, 449)
+		}
+		for _, n := range lengths {
+			for _, desc := range []bool{false, true} {
+				first, rest := lo, hi
+				if desc {
+					first, rest = hi, lo
+				}
+				mk := func(n int, first, rest string) (pages []idxPage) {
+					for i := 0; i < n; i++ {
+						v := rest
+						if i == 0 {
+							v = first
+						}
+						pages = append(pages, idxPage{NV: 1, Min: v, Max: v})
+					}
+					return
+				}
+				cs := &idxCase{Kind: k.Name, Pages: mk(n, first, rest)}
+				if k.Trunc {
+					cs.Limit = 16
+				}
+				idxRun(c, cs, "sweep/indexer-length/"+k.Name)
+				if n%8 == 0 && len(lengths) > 3 || !c.Quick() {
+					// after a longer list of the other direction and Reset
+					cs2 := *cs
+					cs2.Prior = [][]idxPage{mk(n+9, rest, first)}
+					idxRun(c, &cs2, "sweep/indexer-length/"+k.Name)
 				}
 			}
 		}
@@ -988,6 +1072,50 @@ type fcase struct {
 	// half of the rows to another output and was abandoned without Close; then
 	// Writer.Reset(output). A reset writer must produce the file a new one does.
 	Reuse int `json:"writer_reuse,omitempty"`
+	// Via: the rows reach the file through Writer.WriteRowGroup instead of
+	// WriteRows. They are cut into SrcGroups source row groups, each sorted by a
+	// parquet.Buffer that declares the sorting columns Keys, and handed over as
+	//   buffer         the Buffers (column-wise re-encode)
+	//   wrapped        the Buffers behind an application-defined RowGroup (row path)
+	//   file           row groups of a file written with the same settings (verbatim copy)
+	//   file-reencode  row groups of a file written with the other data page version (column-wise re-encode)
+	//   file-wrapped   file row groups behind an application-defined RowGroup (row path)
+	//   split          file row groups larger than MaxRowsPerRowGroup (row path, cut on the way)
+	//   multi          one MultiRowGroup over the file row groups (segments)
+	// SrcCfg: the writer of the source file declares Keys itself (otherwise it
+	// records what the Buffers declare). Sort (the destination writer's own
+	// declaration) prevails over Keys when both are given.
+	Via       string `json:"via,omitempty"`
+	Keys      []skey `json:"source_sorting,omitempty"`
+	SrcGroups int    `json:"source_row_groups,omitempty"`
+	SrcCfg    bool   `json:"source_writer_declares,omitempty"`
+	// Multi: row group numbers (modulo the number of row groups of the file) that
+	// form a parquet.MultiRowGroup whose concatenated column indexes are checked,
+	// on top of the natural and the reversed order; the first MultiNest of them
+	// are wrapped in an inner MultiRowGroup first.
+	Multi     []int `json:"multi_pick,omitempty"`
+	MultiNest int   `json:"multi_nest,omitempty"`
+}
+
+// skey: one sorting column of a source row group.
+type skey struct {
+	Col        int  `json:"col"`
+	Desc       bool `json:"descending,omitempty"`
+	NullsFirst bool `json:"nulls_first,omitempty"`
+}
+
+// sortExpect: what the sorting metadata of the row groups of a file must be.
+type sortExpect struct {
+	want     []format.SortingColumn // the declaration
+	optional bool                   // a row group may also record none (row groups cut or packed on the way)
+	truth    bool                   // the rows were handed over sorted as declared: what is recorded must be true of the rows
+}
+
+func (fc *fcase) writerSortExpect() sortExpect {
+	if fc.Sort == "" {
+		return sortExpect{}
+	}
+	return sortExpect{want: []format.SortingColumn{{ColumnIdx: 0, Descending: fc.Sort == "desc", NullsFirst: fc.Sort == "desc"}}}
 }
 
 func colName(i int) string { return fmt.Sprintf("c%02d", i) }
@@ -1318,7 +1446,10 @@ func eqInts(a, b []int64) bool {
 
 // checkFile evaluates the property on every column chunk of a written file.
 // expect holds, per column, the flat list of values that were written.
-func checkFile(c *core.Ctx, fc *fcase, data []byte, label string) bool {
+//
+// cols: the columns with the rows the file must hold, in order (fc.Cols unless
+// the rows were reordered on the way); exp: the sorting metadata expected.
+func checkFile(c *core.Ctx, fc *fcase, data []byte, label string, cols []fcol, exp sortExpect) bool {
 	viol := func(class, what string) {
 		c.Violation(class, label+": "+what, fc)
 	}
@@ -1329,27 +1460,25 @@ func checkFile(c *core.Ctx, fc *fcase, data []byte, label string) bool {
 	}
 	ok := true
 	md := f.Metadata()
-	ncols := len(fc.Cols)
+	ncols := len(cols)
 	// sorting metadata: only what was declared
 	for rgi := range md.RowGroups {
 		sc := md.RowGroups[rgi].SortingColumns
-		switch fc.Sort {
-		case "":
-			if len(sc) != 0 {
+		if len(sc) == 0 && (len(exp.want) == 0 || exp.optional) {
+			continue
+		}
+		if !slices.Equal(sc, exp.want) {
+			if len(exp.want) == 0 {
 				viol("sorting-not-declared", fmt.Sprintf("row group %d records sorting columns %v, none were declared", rgi, sc))
-				ok = false
+			} else {
+				viol("sorting-differs", fmt.Sprintf("row group %d records sorting columns %s, declared %s", rgi, showSorting(sc), showSorting(exp.want)))
 			}
-		default:
-			want := format.SortingColumn{ColumnIdx: 0, Descending: fc.Sort == "desc", NullsFirst: fc.Sort == "desc"}
-			if len(sc) != 1 || sc[0] != want {
-				viol("sorting-differs", fmt.Sprintf("row group %d records sorting columns %v, declared %v", rgi, sc, want))
-				ok = false
-			}
+			ok = false
 		}
 	}
 	offset := make([]int, ncols) // position in the flat written values of each column
 	written := make([][]string, ncols)
-	for ci, col := range fc.Cols {
+	for ci, col := range cols {
 		for _, r := range col.Rows {
 			if col.Rep == "rep" && len(r) == 0 {
 				written[ci] = append(written[ci], "N")
@@ -1357,9 +1486,17 @@ func checkFile(c *core.Ctx, fc *fcase, data []byte, label string) bool {
 			written[ci] = append(written[ci], r...)
 		}
 	}
+	if f.Schema() == nil || len(f.Schema().Columns()) != ncols {
+		viol("file-schema-differs", fmt.Sprintf("the file has %d columns, %d were written", len(f.Schema().Columns()), ncols))
+		return false
+	}
+	// chunkPages[row group][column]: the values of the pages (nil: the chunk could not be read or has no column index)
+	chunkPages := make([][][]pageData, len(f.RowGroups()))
 	for rgi, rg := range f.RowGroups() {
+		chunkPages[rgi] = make([][]pageData, ncols)
+		rgVals := make([][]parquet.Value, ncols)
 		for ci, cc := range rg.ColumnChunks() {
-			col := fc.Cols[ci]
+			col := cols[ci]
 			k := kindByName[col.Kind]
 			typ := cc.Type()
 			where := fmt.Sprintf("row group %d column %d (%s %s dict=%v)", rgi, ci, col.Kind, col.Rep, col.Dict)
@@ -1385,6 +1522,7 @@ func checkFile(c *core.Ctx, fc *fcase, data []byte, label string) bool {
 				}
 			}
 			offset[ci] += len(all)
+			rgVals[ci] = all
 			maxDef, maxRep := 0, 0
 			if col.Rep != "req" {
 				maxDef = 1
@@ -1564,6 +1702,7 @@ func checkFile(c *core.Ctx, fc *fcase, data []byte, label string) bool {
 				ok = false
 				continue
 			}
+			chunkPages[rgi][ci] = pages
 			mins, maxs := make([]parquet.Value, np), make([]parquet.Value, np)
 			accessOK := true
 			func() {
@@ -1692,6 +1831,17 @@ func checkFile(c *core.Ctx, fc *fcase, data []byte, label string) bool {
 			}
 			c.Case(bucket, key, np >= 2)
 		}
+		// the sorting columns recorded for rows that were handed over sorted are true of the rows
+		if sc := md.RowGroups[rgi].SortingColumns; exp.truth && len(sc) > 0 {
+			if why := sortedWhy(cols, sc, rgVals); why != "" {
+				viol("sorting-claim-false", fmt.Sprintf("row group %d records sorting columns %s but %s", rgi, showSorting(sc), why))
+				ok = false
+			}
+		}
+	}
+	// the column indexes of MultiRowGroup(...) over the row groups of the file
+	if !multiChecks(c, fc, f, label, cols, chunkPages) {
+		ok = false
 	}
 	return ok
 }
@@ -1729,12 +1879,15 @@ func pageBoundsOf(k *kind, vals []parquet.Value) (mn, mx parquet.Value, ok bool,
 }
 
 func fileCheck(c *core.Ctx, fc *fcase) bool {
+	if fc.Via != "" {
+		return viaCheck(c, fc)
+	}
 	data, err := fc.write()
 	if err != "" {
 		c.Violation("file-write-error", err, fc)
 		return false
 	}
-	ok := checkFile(c, fc, data, "written")
+	ok := checkFile(c, fc, data, "written", fc.Cols, fc.writerSortExpect())
 	if fc.Copy {
 		cp, copied, err := fc.copyFile(data)
 		if err != "" {
@@ -1745,7 +1898,7 @@ func fileCheck(c *core.Ctx, fc *fcase) bool {
 		if copied == 0 {
 			label = "rewritten"
 		}
-		if !checkFile(c, fc, cp, label) {
+		if !checkFile(c, fc, cp, label, fc.Cols, fc.writerSortExpect()) {
 			ok = false
 		}
 	}
@@ -1767,6 +1920,13 @@ func fileShrink(c *core.Ctx, fc *fcase) *fcase {
 				t.SkipBounds = false
 			}
 			t.SkipCol = 0
+			t.Keys = nil
+			for _, key := range cur.Keys {
+				if key.Col == i {
+					key.Col = 0
+					t.Keys = append(t.Keys, key)
+				}
+			}
 			if fails(&t) {
 				cur = t
 				break
@@ -1786,6 +1946,8 @@ func fileShrink(c *core.Ctx, fc *fcase) *fcase {
 		progress = false
 		// shorter row groups (the later row groups survive with fewer rows)
 		for _, f := range []func(t *fcase) bool{
+			func(t *fcase) bool { t.PageBuf /= 2; return t.PageBuf >= 1 }, // smaller pages: fewer rows are needed
+			func(t *fcase) bool { t.Batch /= 2; return t.PageBuf == 1 && t.Batch >= 1 },
 			func(t *fcase) bool { t.MaxRows /= 2; return t.MaxRows >= 1 },
 			func(t *fcase) bool { t.Flush /= 2; return t.Flush >= 1 },
 			func(t *fcase) bool { t.MaxRows--; return t.MaxRows >= 1 },
@@ -1822,6 +1984,59 @@ func fileShrink(c *core.Ctx, fc *fcase) *fcase {
 		t.Copy = false
 		if fails(&t) {
 			cur = t
+		}
+	}
+	// the way through WriteRowGroup: fewer source row groups, fewer sorting columns, a simpler way
+	for cur.SrcGroups > 1 {
+		t := cur
+		t.SrcGroups--
+		if !fails(&t) {
+			break
+		}
+		cur = t
+	}
+	for i := 0; i < len(cur.Keys) && len(cur.Keys) > 1; {
+		t := cur
+		t.Keys = append(append([]skey(nil), cur.Keys[:i]...), cur.Keys[i+1:]...)
+		if fails(&t) {
+			cur = t
+		} else {
+			i++
+		}
+	}
+	if cur.Via != "" && cur.Via != "buffer" {
+		for _, via := range []string{"buffer", "file"} {
+			t := cur
+			t.Via = via
+			if via != cur.Via && fails(&t) {
+				cur = t
+				break
+			}
+		}
+	}
+	// the MultiRowGroup asked for: not needed, or fewer row groups of it
+	if len(cur.Multi) > 0 {
+		t := cur
+		t.Multi, t.MultiNest = nil, 0
+		if fails(&t) {
+			cur = t
+		} else {
+			if cur.MultiNest != 0 {
+				t := cur
+				t.MultiNest = 0
+				if fails(&t) {
+					cur = t
+				}
+			}
+			for i := 0; i < len(cur.Multi) && len(cur.Multi) > 2; {
+				t := cur
+				t.Multi = append(append([]int(nil), cur.Multi[:i]...), cur.Multi[i+1:]...)
+				if fails(&t) {
+					cur = t
+				} else {
+					i++
+				}
+			}
 		}
 	}
 	// the history: keep only what the failure needs
@@ -1950,15 +2165,27 @@ func randFileCase(c *core.Ctx, i int) *fcase {
 		fc.Sort = "desc"
 	}
 	ncols := 1 + c.Rng.Intn(4)
+	// one file in two that is flushed explicitly restarts its value runs with every row group
+	saw := fc.Flush > 0 && c.Rng.Intn(2) == 0
 	for j := 0; j < ncols; j++ {
 		k := kinds[(i*3+j*7+c.Rng.Intn(len(kinds)))%len(kinds)]
 		rep := []string{"req", "opt", "opt", "rep"}[c.Rng.Intn(4)]
 		col := fcol{Kind: k.Name, Rep: rep, Dict: canDict(k) && c.Rng.Intn(3) == 0}
-		col.Rows = genColumn(c, k, rep, n)
+		if saw {
+			col.Rows = genColumnSaw(c, k, rep, n, fc.Flush, true)
+		} else {
+			col.Rows = genColumn(c, k, rep, n)
+		}
 		fc.Cols = append(fc.Cols, col)
 	}
 	if fc.SkipBounds {
 		fc.SkipCol = c.Rng.Intn(len(fc.Cols))
+	}
+	if saw || c.Rng.Intn(4) == 0 {
+		randMulti(c, fc)
+	}
+	if c.Rng.Intn(8) == 0 {
+		randVia(c, fc)
 	}
 	return fc
 }
@@ -2002,7 +2229,7 @@ func historySweep(c *core.Ctx) {
 // ---------------------------------------------------------------- run
 
 func runC05(c *core.Ctx) {
-	c.Res.Rule = "(a) ColumnIndexer of every physical/logical type fed generated page lists (ordered, reversed, constant and random bounds from a per-type domain with extremes, -0, +-Inf, NaN payloads, long 0xFF prefixes; null pages at every position; size limits -1..21), on new indexers and on indexers that indexed 1-2 earlier lists and were Reset (random histories plus a sweep of every kind over histories shorter, equal and longer than the list), plus every list of <= 4 pages over a 3-value domain for int32 / byte arrays and every byte string over {00,01,fe,ff} up to length 5 with limits 1..4; Type.Compare on all domain pairs; Bounds of in-memory pages, plain and dictionary indexed: random pages, byte-position sweeps, pages above 1 MiB, and every ordered pair of every domain (NaNs and both zeros included; for the kinds whose order has ties also the pair spread over a longer page), each followed by Search of every value of the page in the one-page index made of the page's own bounds. (b) files with generated schemas (1-4 columns, required / optional / repeated, plain / dictionary, data page v1 / v2, tiny page buffers, every ColumnIndexSizeLimit 1..20, with and without page statistics, sorting declared or not; row groups cut by MaxRowsPerRowGroup and by Flush; writers new or reused through Writer.Reset after a complete or an abandoned file; a sweep gives every kind, plain and dictionary, each of these histories), re-written through WriteRowGroup with identical settings. Every page header, chunk statistic, column index entry, histogram and boundary order of every row group is checked directly against the values read back and against the model. A case is one indexer call sequence, one page, or one column chunk; non-trivial = at least 2 pages / values; distinct by the canonical text of the case."
+	c.Res.Rule = "(a) ColumnIndexer of every physical/logical type fed generated page lists (ordered, reversed, constant and random bounds from a per-type domain with extremes, -0, +-Inf, NaN payloads, long 0xFF prefixes; null pages at every position; size limits -1..21), on new indexers and on indexers that indexed 1-2 earlier lists and were Reset (random histories plus a sweep of every kind over histories shorter, equal and longer than the list), ascending and descending lists of every kind whose length is around the multiples of the strides of the vectorised order kernels (56, 112, 240 pages for every kind; 55..57, 111..113, 239..241 for the six kinds that have their own kernel, 447..449 / 479..481 for one kernel of each stride; all of these for every kind in the thorough tier; new and reset indexers), plus every list of <= 4 pages over a 3-value domain for int32 / byte arrays and every byte string over {00,01,fe,ff} up to length 5 with limits 1..4; Type.Compare on all domain pairs; Bounds of in-memory pages, plain and dictionary indexed: random pages, byte-position sweeps, pages above 1 MiB, and every ordered pair of every domain (NaNs and both zeros included; for the kinds whose order has ties also the pair spread over a longer page), each followed by Search of every value of the page in the one-page index made of the page's own bounds. (b) files with generated schemas (1-4 columns, required / optional / repeated, plain / dictionary, data page v1 / v2, tiny page buffers, every ColumnIndexSizeLimit 1..20, with and without page statistics, sorting declared or not; row groups cut by MaxRowsPerRowGroup and by Flush; writers new or reused through Writer.Reset after a complete or an abandoned file; a sweep gives every kind, plain and dictionary, each of these histories), re-written through WriteRowGroup with identical settings. (b') the rows sorted in 1-4 parquet.Buffers that declare 0-2 sorting columns (every combination of descending / nulls first) and written through Writer.WriteRowGroup by a writer without (or, sometimes, with) a sorting configuration of its own, on every way in: the Buffers (column-wise re-encode), an application-defined RowGroup around them (row path), row groups of a source file written with the same settings (verbatim copy), with the other data page version (column-wise re-encode), behind an application-defined RowGroup, larger than MaxRowsPerRowGroup (cut on the way), and one MultiRowGroup over them (segments); the source file and the file written are checked like every other file, the sorting columns recorded for every row group must be the declaration (none or the declaration where row groups are cut or packed on the way) and must be true of the rows read back (null placement included). (b'') for every file of at least 2 row groups the column index of every column chunk of parquet.MultiRowGroup over the row groups in file order, reversed, and in a generated order (consecutive or random row groups, repetitions, an inner MultiRowGroup): page count, null counts, null pages and bounds against the values read back from the pages, IsAscending / IsDescending true of all pairs of non-null pages, Search of every value, and IsAscending / IsDescending against the model of isOrdered fed with what the chunks' own indexes say; a sweep gives every kind (required / optional / repeated, plain / dictionary) files whose row groups are ascending, descending, constant, random or null-only runs whose ranges are disjoint, touch, overlap partially or are nested. Every page header, chunk statistic, column index entry, histogram and boundary order of every row group is checked directly against the values read back and against the model. A case is one indexer call sequence, one page, or one column chunk; non-trivial = at least 2 pages / values; distinct by the canonical text of the case."
 
 	var vmIdx, vmTrunc []string
 	addVmIdx := func(cs *idxCase) {
@@ -2149,6 +2376,7 @@ func runC05(c *core.Ctx) {
 	c.Note("exhaustive: indexers of int32, byte array (limits 1, 2), flba5 (limit 2), uuid, float over page lists of <= %d pages from a 3-value domain with null pages; all byte strings over {00,01,fe,ff} up to length %d at limits 1..4", c.N(3, 4), c.N(4, 5))
 
 	resetSweep(c)
+	lengthSweep(c)
 	// random indexer cases
 	nIdx := c.N(12000, 80000)
 	for i := 0; i < nIdx; i++ {
@@ -2189,6 +2417,8 @@ func runC05(c *core.Ctx) {
 	nFiles := c.N(450, 3000)
 	copiedChunks := parquet.VerifCopyPathCount()
 	historySweep(c)
+	multiSweep(c)
+	transferSweep(c)
 	for i := 0; i < nFiles; i++ {
 		fc := randFileCase(c, i)
 		fileRun(c, fc)
